@@ -26,8 +26,14 @@ ASSUMPTIONS = [
     "'right bytes' = the bytes the source stores under the id; 'present' = a regular file at <root>/<2 chars>/<rest> "
     "(lib.impl.walk_store)",
     "'absent afterwards => failed or missing' is judged without a destination index, or with one when the "
-    "destination was closed at the start of the round and nothing was deleted behind the index (C12's hypothesis)",
+    "destination was closed at the start of the round, nothing was deleted behind the index and the directory "
+    "objects in the destination are byte-identical to the copies status() reads from cache_odb/source (C12's "
+    "hypothesis: 'directory present => contents present'); other rounds are counted under excluded:*",
     "directory listings are flat",
+    "no-re-send, absent=>reported and status.new are judged when cache_odb (if given) holds the same bytes as the source for every "
+    "requested directory id; when they disagree (one copy corrupt) and shallow=False, compare_status expands two "
+    "different listings and a file listed only by the source's copy is re-sent although present (counted under "
+    "excluded:resent:cache-source-disagree)",
 ]
 
 
@@ -47,6 +53,8 @@ def _register(ctx, S, notes, items):
     ctx.count("judged-rounds", sum(1 for ob in S.rounds if ob["outcome"][0] == "ok"))
     for ob in S.rounds:
         ctx.count("outcome:" + ob["outcome"][0] + (str(ob["outcome"][1]) if ob["outcome"][0] == "err" else ""))
+    for k, v in S.excluded.items():
+        ctx.count("excluded:" + k, v)
     for sig, what in problems:
         ctx.oracle_fail(sig, what, case)
     inp, exp = S.terms()
@@ -65,7 +73,7 @@ def run(ctx):
             n_problems += len(_register(ctx, S, ["corpus"], items))
         finally:
             S.close()
-    nbase = ctx.n(150, 450)
+    nbase = ctx.n(90, 320)
     per_base = ctx.n(2, 10)
     for _ in range(nbase):
         base, notes = TC.gen_base(ctx.rng, "C11")
